@@ -62,7 +62,10 @@ public:
       buffer = (byte*)new char[size + 1];
     }
     else if(!buffer)
+    {
+      bufferEnd = bufferStart;
       return *this;
+    }
     Memory::copy(buffer, other.bufferStart, size);
     bufferStart = buffer;
     bufferEnd = buffer + size;
@@ -79,7 +82,10 @@ public:
       buffer = (byte*)new char[size + 1];
     }
     else if(!buffer)
+    {
+      bufferEnd = bufferStart;
       return;
+    }
     Memory::copy(buffer, data, size);
     bufferStart = buffer;
     bufferEnd = buffer + size;
